@@ -165,6 +165,7 @@ class Visitor(Symbol):
 class Delegate(Visitor):
     """only this subclass of the declared role taker type carries the super-property field"""
     attends: List[Org] = field(default_factory=list)
+    sees: List[Org] = field(default_factory=list)
 
 
 @dataclass(eq=False, repr=False)
@@ -177,6 +178,7 @@ class Convener(Delegate):
 class Chair(Role[Visitor], Symbol):
     visitor: Visitor
     chairs: Org = None
+    guides: List[Org] = field(default_factory=list)
 
     __hash__ = object.__hash__
 
@@ -308,6 +310,16 @@ class Leads(Chairs):
 
 
 @dataclass
+class Sees(PropertyDescriptor):
+    """no inverse: Guides < Sees reaches the role taker through the role-taker rule only"""
+
+
+@dataclass
+class Guides(Sees):
+    pass
+
+
+@dataclass
 class EmployedBy(PropertyDescriptor):
     pass
 
@@ -353,6 +365,8 @@ Unit.under = SubOrgOf(Unit, "under")
 Delegate.attends = Attends(Delegate, "attends")
 Org.attendees = Attendees(Org, "attendees")
 Chair.chairs = Chairs(Chair, "chairs")
+Delegate.sees = Sees(Delegate, "sees")
+Chair.guides = Guides(Chair, "guides")
 Convener.leads = Leads(Convener, "leads")
 Boss.runs = Runs(Boss, "runs")
 Boss.employed_by = EmployedBy(Boss, "employed_by")
